@@ -111,6 +111,7 @@ func evalFS(bin, work string, c Case) *Outcome {
 		return o
 	}
 	exp := Reference(root, inv, []byte(c.Stdin))
+	clearRepaired(exp)
 	o.Exp = exp
 	o.Known = exp.Known
 	if exp.NotJudged != "" {
